@@ -251,7 +251,7 @@ Definition read_octets (t : tok) : outcome bytes := map_o into_octet (t_syms t).
 (* scan_charstr / convert_charstr *)
 Definition read_charstr (t : tok) : outcome bytes :=
   do b <- read_octets t;
-  if 255 <? len b then Err E_charstr else Ok b.
+  if charstr_latest <? len b then Err E_charstr else Ok b.
 
 (* scan_ascii_str *)
 Definition read_ascii (t : tok) : outcome text := map_o into_ascii (t_syms t).
@@ -440,14 +440,17 @@ Inductive fkind :=
 | FName                (* domain name, fmt_with_dot / scan_name *)
 | FCharstr             (* display_quoted / scan_charstr *)
 | FWord                (* an opaque word-safe token (Base16/32/64 text, addresses, mnemonics): its text *)
-| FCharstrs.           (* rest of the entry: one or more quoted character strings (TXT) *)
+| FCharstrs            (* rest of the entry: one or more quoted character strings (TXT) *)
+| FRest.               (* rest of the entry: the word texts of all remaining tokens, concatenated
+                          (convert_entry: Base16/Base64 text that may be split over tokens or absent) *)
 
 Inductive fval :=
 | VUint (n : N)
 | VName (n : list bytes)
 | VCharstr (b : bytes)
 | VWord (w : text)
-| VCharstrs (l : list bytes).
+| VCharstrs (l : list bytes)
+| VRest (w : text).
 
 Definition show_field (v : fval) : list op :=
   match v with
@@ -456,6 +459,7 @@ Definition show_field (v : fval) : list op :=
   | VCharstr b => [OTok (show_cstr_quoted b)]
   | VWord w => [OTok w]
   | VCharstrs l => map (fun b => OTok (show_cstr_quoted b)) l
+  | VRest w => [OTok w]
   end.
 
 (* a field with the comment the writer attaches to it *)
@@ -479,6 +483,7 @@ Definition read_field (k : fkind) (ts : list tok) : outcome (fval * list tok) :=
       | [] => Err E_tokens
       | _ => do l <- map_o read_charstr ts; Ok (VCharstrs l, [])
       end
+  | FRest => do ws <- map_o (fun t => word_text (t_syms t)) ts; Ok (VRest (concat ws), [])
   | _ =>
       match ts with
       | [] => Err E_tokens
@@ -488,7 +493,7 @@ Definition read_field (k : fkind) (ts : list tok) : outcome (fval * list tok) :=
           | FName => do n <- read_name None t; Ok (VName n, r)
           | FCharstr => do b <- read_charstr t; Ok (VCharstr b, r)
           | FWord => do w <- word_text (t_syms t); Ok (VWord w, r)
-          | FCharstrs => Err E_tokens
+          | FCharstrs | FRest => Err E_tokens
           end
       end
   end.
